@@ -8,7 +8,7 @@ provided odml query dictionaries.
 import re
 from abc import ABCMeta, abstractmethod
 
-from rdflib import RDF
+from rdflib import Literal, RDF
 from rdflib.plugins.sparql import prepareQuery
 
 from ..format import Document
@@ -26,6 +26,10 @@ def sparql_str(value):
     """
     Returns a value as escaped content of a double quoted SPARQL string literal.
     """
+    if not isinstance(value, str):
+        # Numbers, booleans and dates are requested by the lexical form
+        # the RDFWriter exports them with, e.g. "true" for the boolean True.
+        value = Literal(value)
     value = str(value)
     for char, esc in [("\\", "\\\\"), ("\"", "\\\""), ("\n", "\\n"), ("\r", "\\r"),
                       ("\t", "\\t")]:
